@@ -51,6 +51,10 @@ class C07(Driver):
                 ends += ["timeout", "timeout"]
             if kind in ("select", "selectg", "gather"):
                 ends += ["other", "other"]
+            if kind in ("take", "select", "read"):
+                # the deadline and the completion of the wait fall into the same instant: whichever wins, a value
+                # that the giver saw delivered reaches the victim
+                ends += ["tie"]
             if kind in ("read", "chunk"):
                 # another fiber already waits to read this stream: the operation is refused at once, and whatever
                 # it armed before (its timeout) must go with it
@@ -66,7 +70,7 @@ class C07(Driver):
                 st["nested"] = r.choice([0, 1, 1])     # directly in the callback / inside a try in the callback
             if kind == "sleep":
                 st["ms"] = dur if end == "complete" else dur + delta
-            if end == "deadline":
+            if end in ("deadline", "tie"):
                 st["deadline"] = dur
             elif end == "complete" and not last and r.random() < 0.3:
                 # a deadline that outlives its body: it expires while the victim is in a later wait
@@ -83,7 +87,9 @@ class C07(Driver):
                 st["code"] = r.choice([0, 1, 7])
             if kind == "thread":
                 st["thread_ms"] = dur if end == "complete" else dur + delta
-            fire = t + dur if end == "complete" else t + dur + delta
+            fire = t + dur if end in ("complete", "tie") else t + dur + delta
+            if end == "tie" and r.random() < 0.6:
+                fire -= 1       # (with a ticking clock the deadline then expires while the completion is being handled)
             if end == "cancel":
                 adv.append({"t": t + dur, "a": "cancel", "k": ncancel})
                 ncancel += 1
@@ -138,6 +144,10 @@ class C07(Driver):
                     p[k] = r.choice([0.05, 0.2])
         knobs = {"seed": seed, "p": p, "pipe_size": 4096, "clock_phase_ns": r.choice([0, 0, 250000, 999999]),
                  "max_yields": 400000}
+        if any(st["end"] == "tie" for st in steps):
+            # simulated time advances a little with every scheduling point: the event loop's passes then see
+            # different millisecond clocks, as on a real machine
+            knobs["tick_ns"] = r.choice([0, 50000, 200000, 400000])
         plan = {"property": "C07", "knobs": knobs, "steps": steps, "adv": adv, "nest": 1 if r.random() < 0.35 else 0}
         if r.random() < 0.6:
             # bystander tasks: a sleeper spanning the whole plan, a taker served at the end, and a task whose own
@@ -243,6 +253,9 @@ class C07(Driver):
                 body = "(ev/with-deadline %s %s)" % (st["deadline"] / 1000.0, body)
             A("  (sim/ev :inv %d)" % i)
             A("  (let [[ok v] (protect %s)] (sim/ev :ret %d ok v))" % (body, i))
+            if st["end"] == "tie" and st["kind"] == "read":
+                # whatever the tie's outcome, the bytes the writer got rid of are either in the result or still there
+                A("  (sim/ev :left %d (let [[ok b] (protect (ev/read (P [%d :r]) 4096 @\"\" 0.05))] (if (and ok b) (length b) 0)))" % (i, i))
         if plan.get("nest"):
             A("  ))")
         A("  (sim/ev :vdone))")
@@ -535,6 +548,34 @@ class C07(Driver):
                 V("C07/conservation/item-consumed-by-a-waiter-that-is-no-longer-there/wait=%s/end=%s" % (st["kind"], st["end"]),
                   "give of %d on channel %r completed but the victim's step %d returned %s" %
                   (a["v"], a["ch"], si, ret[si][1][:60] if si in ret else "<never>"))
+        # ---- a value handed over in the very turn in which the wait's deadline fires is not dropped ----
+        for i, st in steps.items():
+            if st["end"] != "tie" or i not in ret or i not in inv:
+                continue
+            e1, payload = ret[i]
+            if self.classify(payload) != "deadline-expired":
+                continue
+            for j, a in enumerate(adv):
+                if a["a"] == "give" and a["ch"][0] == i and j in aret and aret[j][1][1] == "true" and aret[j][1][2] == ":ok" \
+                        and ainv[j].seq < e1.seq:
+                    V("C07/conservation/value-handed-over-in-the-turn-of-the-deadline-was-dropped/wait=%s" % st["kind"],
+                      "give of %d on channel %r completed, the victim's step %d ended with 'deadline expired'" % (a["v"], a["ch"], i))
+        left = {}
+        for e in res.events:
+            if e.kind == "left":
+                a_, b_ = e.payload.split(" ")
+                left[int(a_)] = (e, int(b_))
+        for i, st in steps.items():
+            if st["end"] != "tie" or st["kind"] != "read" or i not in ret or i not in left:
+                continue
+            e1, payload = ret[i]
+            got = int(payload[len("true (:bytes "):].split(" ")[0]) if payload.startswith("true (:bytes ") else 0
+            for j, a in enumerate(adv):
+                # (only a write that had completed before the wait ended can have been consumed by it)
+                if a["a"] == "write" and a["p"] == i and j in aret and aret[j][1][1] == "true" and aret[j][0].seq < e1.seq:
+                    if got + left[i][1] != a["n"]:
+                        V("C07/conservation/bytes-read-in-the-turn-of-the-deadline-were-dropped",
+                          "%d bytes written; the wait returned %s and %d bytes were still in the pipe afterwards" % (a["n"], payload[:40], left[i][1]))
         # ---- the victim must not be left suspended when its current wait's trigger has fired ----
         if ":vdone" not in [":" + e.kind for e in res.events]:
             pending = [i for i in inv if i not in ret]
